@@ -273,6 +273,8 @@ var c02Pool = []string{
 	"a.{b}/", "a.{b}.c/", "a.{b}/x", "{a}.{b}/",
 	// a route on an existing branching node that has no route yet, and writes below it (window 24..27, with the siblings-3 set)
 	"/s/", "/s/bx", "/s/a", "/s/d/e",
+	// writes beneath an infix catch-all node that has children (window 28..31, with the infix-children set)
+	"/f/*{p}/ba/m", "/f/*{p}/bd", "/f/*{p}/b", "/f/*{p}/bc/x",
 }
 
 type c02State struct {
@@ -342,6 +344,8 @@ func HarnessC02History(st any) {
 	}
 	if via > 0 {
 		checkObs(txn, model, probes, "txn before it ends")
+		// a snapshot of the transaction is one more reader of the same state
+		checkObs(txn.Snapshot(), model, probes, "snapshot of the txn before it ends")
 	}
 	switch via {
 	case 1:
